@@ -696,6 +696,14 @@ def c05_sessions(rng, sid, nscen):
             steps.append({"op": "par", "branches": [[connect(10 + j, "c", rng.choice([5, 4]), clean=False, nosentinel=True, expiry=1000)] for j in range(n)]})
             steps.append({"op": "sleep", "ms": 100})
             steps.append({"op": "pingall"})
+            if not pre:
+                # client ids nobody has used yet (no stored session: the first registration races with the others' look at
+                # the session store), several rounds
+                for rnd, cid in enumerate(["d", "e", "f", "g"]):
+                    steps.append({"op": "par", "branches": [[connect(30 + 10 * rnd + j, cid, rng.choice([5, 4]), clean=False, nosentinel=True, expiry=1000)]
+                                                            for j in range(rng.choice([2, 4, 6]))]})
+                    steps.append({"op": "sleep", "ms": 60})
+                    steps.append({"op": "pingall"})
         out.append({"id": "%s-ses%s%d" % (sid, fam[0], i), "cfg": cfg, "hooks": True, "steps": steps})
     return out
 
